@@ -34,6 +34,21 @@ where
 		.and_then(|string| base64::decode(&string).map_err(|err| Error::custom(err.to_string())))
 }
 
+/// Creates a BlindingFactor from a hex string (BlindingFactor::from_hex panics on invalid hex)
+pub fn blind_from_hex<'de, D>(
+	deserializer: D,
+) -> Result<crate::grin_keychain::BlindingFactor, D::Error>
+where
+	D: Deserializer<'de>,
+{
+	use serde::de::Error;
+	String::deserialize(deserializer).and_then(|string| {
+		crate::grin_util::from_hex(&string)
+			.map(|bytes| crate::grin_keychain::BlindingFactor::from_slice(&bytes))
+			.map_err(|err| Error::custom(err.to_string()))
+	})
+}
+
 /// Serializes an Option<secp::Signature> to and from hex
 pub mod option_rangeproof_hex {
 	use crate::grin_util::secp::pedersen::RangeProof;
